@@ -152,7 +152,70 @@ def h_response(c):
     return {"pdat": enc(numpy.asarray(r["pdat"], dtype=complex)), "model": list(r["model"])}
 
 
-HANDLERS = {"qspp": h_qspp, "angle_sequence": h_angle_sequence, "completion": h_completion,
+def h_bifurc(c):
+    """input generation only: members of the C03 real family close to a collision of two real
+    roots of 1 - F*~F (a root pair just on / just off the real axis).  Returns monomial
+    coefficient lists; the harness re-verifies family membership exactly."""
+    from numpy.polynomial import chebyshev as Ch
+    from pyqsp.LPoly import LPoly, Id
+    from pyqsp.angle_sequence import poly2laurent
+    rs = numpy.random.RandomState(c["seed"])
+    d = int(c["d"])
+    eps, suc = 1e-4, 1 - 1e-4
+    idx = list(range(d % 2, d + 1, 2))
+    out = []
+
+    def mono(cv):
+        return Ch.cheb2poly(cv) if len(cv) > 1 else numpy.array(cv, dtype=float)
+
+    def nreal(cv):
+        m = numpy.array(mono(cv), dtype=float)
+        m = numpy.concatenate([m, numpy.zeros(d + 1 - len(m))])
+        m[d] += eps / 2
+        m = suc * m
+        lco = poly2laurent(m)
+        F = LPoly(lco, -len(lco) + 1)
+        r = numpy.roots((Id - (F * ~F)).coefs)
+        return int(numpy.sum((numpy.abs(r) < 1) & (numpy.abs(numpy.imag(r)) < 1e-7)))
+
+    for attempt in range(int(c.get("attempts", 12))):
+        base = numpy.zeros(d + 1)
+        for k in idx:
+            base[k] = rs.uniform(-1, 1)
+        n1 = numpy.sum(numpy.abs(base))
+        base = base / n1 * rs.uniform(0.25, 0.6)
+        if abs(base[d]) < 0.15 * numpy.sum(numpy.abs(base)):
+            base[d] = numpy.sign(base[d] or 1.0) * 0.2 * numpy.sum(numpy.abs(base))
+        j = idx[rs.randint(len(idx))]
+        ts = numpy.linspace(-0.25, 0.25, 61)
+
+        def member(t):
+            cv = base + t * numpy.eye(d + 1)[j]
+            n = numpy.sum(numpy.abs(cv))
+            return 0.11 <= n <= 0.88 and abs(cv[d]) >= 0.11 * n
+        try:
+            counts = [nreal(base + t * numpy.eye(d + 1)[j]) if member(t) else None for t in ts]
+        except Exception:
+            continue
+        for a in range(len(ts) - 1):
+            if counts[a] is not None and counts[a + 1] is not None and counts[a] != counts[a + 1]:
+                lo, hi, clo = ts[a], ts[a + 1], counts[a]
+                for _ in range(60):
+                    mid = 0.5 * (lo + hi)
+                    if nreal(base + mid * numpy.eye(d + 1)[j]) == clo:
+                        lo = mid
+                    else:
+                        hi = mid
+                for off in (0.0, 1e-12, -1e-12, 1e-10, -1e-10, 1e-8, -1e-8, 1e-6, -1e-6):
+                    cv = base + (0.5 * (lo + hi) + off) * numpy.eye(d + 1)[j]
+                    out.append(enc(numpy.array(mono(cv), dtype=float)))
+                break
+        if len(out) >= int(c.get("want", 18)):
+            break
+    return out
+
+
+HANDLERS = {"qspp": h_qspp, "c03_bifurc": h_bifurc, "angle_sequence": h_angle_sequence, "completion": h_completion,
             "roundtrip": h_roundtrip, "response": h_response}
 
 try:
